@@ -73,6 +73,7 @@ def main(argv=None):
     if args.cmd == 'replay':
         with open(args.path) as fd:
             data = json.load(fd)
+        os.environ['VERIF_NO_EVIDENCE'] = '1'
         key = data['finding']['key']
         print('replaying obligation %s of %s against %s' % (
             key, data['property'], args.root))
